@@ -152,6 +152,22 @@ CHECKS = {
    design_ref="DESIGN.md §7 C14",
    technique="Lean 4 theorems over a token-level parser model + independent serialiser round trip + exact differential check",
    note=BASE_NOTE + " Python's str.split/float/int/round are the trusted tokeniser. Known finding D24: pressures attached by position (bodies listed in another order than faces)."),
+ "C15": dict(
+   category="other",
+   text="A proved core around an unverified image kernel. Proved in Lean for all contour lists: the first loop of Skeleton.create_lattice "
+        "(one vertex per distinct pixel position in first-occurrence order, no mesh edge twice in either direction, every contour step "
+        "incl. the closing one joined by a stored edge, every cell cycle = its contour through the interning, one cell per contour, and "
+        "the dictionaries form a consistent mesh, also with mirror_y), structural lemmas of the clean-up (unfolding, cell keys, the CPython "
+        "pinned-last-edge behaviour behind finding D16 with a witness). Checked per run, not proved: the executable model of the whole "
+        "create_lattice (triangle loop, get_artifacts, grouping, do_t3_transition, isolated cells, with CPython's reference-count and "
+        "list-mutation semantics) equals the real code on OpenCV's actual contour lists (all dictionaries, flags, exception kinds, exactly); "
+        "the pipeline Skeleton -> create_lattice -> generate_mesh -> Frame gives one cell per enclosed region, border flags, internal "
+        "interfaces (against a pixel-level raster oracle, itself modelled twice, and the generating Voronoi topology), consistent meshes at "
+        "every stage, and the same answer under the 8 symmetries of the square, padding, frame and mirror_y. That cv2.findContours yields one "
+        "hole contour per enclosed region is a digital-topology statement about OpenCV and is not proved: hence 'other', not 'proof'.",
+   design_ref="DESIGN.md §7 C15",
+   technique="Lean 4 theorems over the contour-list model of Skeleton.create_lattice + exact differential check on OpenCV's contours + raster-oracle/metamorphic check of the pipeline",
+   note=BASE_NOTE + " cv2.findContours, PIL and scipy.ndimage are trusted kernels; the model is interpreted, inputs above 3500 contour pixels are not sent to it (counted). Known finding D16: KeyError when the last mesh edge lies inside an artefact group (seen only outside the property's domain)."),
  "C17": dict(
    category="proof",
    text="Model of get_intensities (both branches), window construction, median, band walking (ceil, axis choice, interpolation, truncation to "
